@@ -67,17 +67,27 @@ def main():
         vr = verify(seed, meta)
         print(json.dumps(vr, indent=1))
         meta["verified"] = vr
-    st = sh("git -C %s status --porcelain" % REPO)
-    if st.stdout.strip():
-        print("refusing: /repo working tree is not clean:\n" + st.stdout)
-        sys.exit(2)
     patch = os.path.join(seed, "patch.diff")
     fired = {}
+    use_wt = "--wt" in sys.argv      # run against a patched scratch worktree (VERIF_REPO) instead of /repo itself
+    wt = "/tmp/seedrun-%d" % os.getpid()
+    if not use_wt:
+        st = sh("git -C %s status --porcelain" % REPO)
+        if st.stdout.strip():
+            print("refusing: /repo working tree is not clean:\n" + st.stdout)
+            sys.exit(2)
     try:
-        sh("git -C %s apply %s" % (REPO, patch), check=True)
+        env = dict(ENV)
+        if use_wt:
+            sh("git -C %s worktree add -q --detach %s HEAD" % (REPO, wt), check=True)
+            sh("git apply %s" % patch, cwd=wt, check=True)
+            env["VERIF_REPO"] = wt
+        else:
+            sh("git -C %s apply %s" % (REPO, patch), check=True)
         tier = "thorough" if "--thorough" in sys.argv else "quick"
         for pid in pids:
-            p = sh("./check %s %s" % (pid, tier), cwd=VERIF)
+            p = subprocess.run("./check %s %s" % (pid, tier), cwd=VERIF, shell=True, env=env,
+                               stdout=subprocess.PIPE, stderr=subprocess.STDOUT, text=True)
             lines = [l for l in p.stdout.splitlines() if l.startswith("VIOLATION") or l.startswith("check ")]
             fired[pid] = [l for l in lines if l.startswith("VIOLATION")]
             print("\n".join(lines))
@@ -91,9 +101,12 @@ def main():
                         os.makedirs(keep, exist_ok=True)
                         shutil.copy(tok[7:], os.path.join(keep, os.path.basename(tok[7:])))
     finally:
-        sh("git -C %s apply -R %s" % (REPO, patch))
-        sh("git -C %s checkout -- ." % REPO)
-        sh("git -C %s clean -fdq" % REPO)
+        if use_wt:
+            sh("git -C %s worktree remove --force %s" % (REPO, wt))
+        else:
+            sh("git -C %s apply -R %s" % (REPO, patch))
+            sh("git -C %s checkout -- ." % REPO)
+            sh("git -C %s clean -fdq" % REPO)
         # the checks rewrote evidence files on a modified tree: restore the committed ones
         sh("git -C %s checkout -- evidence" % VERIF)
         sh("git -C %s checkout -- replays; git -C %s clean -fdq replays" % (VERIF, VERIF))
@@ -104,7 +117,7 @@ def main():
         import time
         meta.setdefault("ran", [])
         meta["ran"] = [r for r in meta["ran"] if r.get("checks") != sorted(fired)] + [{
-            "cmd": "tools/seedtest.py %s %s" % (os.path.relpath(seed, VERIF), " ".join(pids)),
+            "cmd": "tools/seedtest.py %s %s%s" % (os.path.relpath(seed, VERIF), " ".join(pids), " --wt" if use_wt else ""),
             "checks": sorted(fired), "tier": tier,
             "violation_lines": {k: v[:3] for k, v in fired.items()},
             "detected": any(fired.values()), "at": time.strftime("%Y-%m-%dT%H:%M:%SZ", time.gmtime())}]
